@@ -232,6 +232,7 @@ func (f *Frame) loopMods(li *loopInfo) ([]cellKey, map[string]Sort, bool) {
 			if vc.scanInstr(f, in, tmp, addCell, 0) {
 				all = true
 			}
+			vc.ghostHeapsAt(in, tmp) // ghost statements anchored at this instruction write ghost heaps
 			for k, v := range tmp {
 				heaps[k] = v
 				imprecise[k] = true
